@@ -6,12 +6,14 @@ import (
 	"errors"
 	"fmt"
 	"io"
+	"io/fs"
 	"log/slog"
 	"os"
 	"path/filepath"
 	"sort"
 	"strings"
 	"sync"
+	"syscall"
 
 	"github.com/bufbuild/buf/private/bufpkg/bufcas"
 	"github.com/bufbuild/buf/private/bufpkg/bufconfig"
@@ -35,6 +37,23 @@ import (
 // source; a returned failure of an atomic put leaves the directory listing unchanged.
 
 var errC15 = errors.New("c15: injected fault")
+
+// c15ErrKind: the injected failure takes a different KIND at every position — a plain error, "no such file"
+// (a destination directory removed under the writer, a dangling link), "file exists", a bare io.EOF, a
+// permission error. Whatever its kind, a failed write, close or put is a failure of the operation.
+func c15ErrKind(n int) error {
+	switch n % 5 {
+	case 1:
+		return &fs.PathError{Op: "open", Path: "c15-injected", Err: syscall.ENOENT}
+	case 2:
+		return &fs.PathError{Op: "open", Path: "c15-injected", Err: syscall.EEXIST}
+	case 3:
+		return io.EOF
+	case 4:
+		return &fs.PathError{Op: "write", Path: "c15-injected", Err: syscall.EACCES}
+	}
+	return errC15
+}
 
 type c15Plan struct {
 	mu                              sync.Mutex
@@ -73,8 +92,8 @@ type c15Bucket struct {
 }
 
 func (b *c15Bucket) Put(ctx context.Context, path string, opts ...storage.PutOption) (storage.WriteObjectCloser, error) {
-	if fail, _ := b.plan.hit("put"); fail {
-		return nil, errC15
+	if fail, n := b.plan.hit("put"); fail {
+		return nil, c15ErrKind(n)
 	}
 	w, err := b.ReadWriteBucket.Put(ctx, path, opts...)
 	if err != nil {
@@ -89,21 +108,21 @@ type c15Writer struct {
 }
 
 func (w *c15Writer) Write(p []byte) (int, error) {
-	if fail, _ := w.plan.hit("write"); fail {
+	if fail, k := w.plan.hit("write"); fail {
 		if w.plan.short && len(p) > 1 {
 			n, _ := w.WriteObjectCloser.Write(p[:len(p)/2])
-			return n, errC15
+			return n, c15ErrKind(k)
 		}
-		return 0, errC15
+		return 0, c15ErrKind(k)
 	}
 	return w.WriteObjectCloser.Write(p)
 }
 
 func (w *c15Writer) Close() error {
-	fail, _ := w.plan.hit("close")
+	fail, k := w.plan.hit("close")
 	err := w.WriteObjectCloser.Close()
 	if fail {
-		return errors.Join(errC15, err)
+		return errors.Join(c15ErrKind(k), err)
 	}
 	return err
 }
